@@ -14,7 +14,8 @@ certificate `levelIndepB` — evaluated on the REAL ops of every level of every 
 the independence hypothesis. Memory level: `threads_any_order` (footprint-disjoint threads commute, whole
 memory incl. stale cells) is proved generically; `memory_any_schedule`: when the map certificate of C08 accepts the
 REAL tables, every duplicate-free execution order that respects `level_starts` leaves the same values in every observed
-memory region (whatever the value domain and storage discipline) — the certificate itself is evaluated per instance. Accumulated activity is order independent (`abuf_any_order`). -/
+memory region (whatever the value domain and storage discipline) — and `memory_any_schedule_all_circuits`: for the tables the `SimOps` model builds
+the certificate is a theorem (`C08.simops_map_accepted`), so nothing is per instance except the tie model = code. Accumulated activity is order independent (`abuf_any_order`). -/
 namespace KV.C07
 open KV KV.Sig
 
@@ -83,6 +84,35 @@ theorem memory_any_schedule {α C : Type} (p : MapIn) (hc : p.check = none) (R :
 
 example : C08.demoMap.schedOKB [0, 1, 2, 3, 4, 5] = true ∧ C08.demoMap.schedOKB [1, 0, 3, 2, 4, 5] = true ∧
     C08.demoMap.schedOKB [0, 2, 1, 3, 4, 5] = false := by decide +kernel
+
+/-- **memory level, ALL circuits, no per-instance certificate**: `memory_any_schedule` for the tables the `SimOps` model
+    builds (`simopsMap`) — the map certificate is discharged by `C08.simops_map_accepted`; the remaining hypotheses are
+    the domain predicates on the netlist and its order and the schedule certificates `schedOKB`. -/
+theorem memory_any_schedule_all_circuits {α C : Type} (tbl : List PrefixRow) (net : Net) (order : List Nat) (strip : Bool)
+    (capsIn : Nat → Nat) (capsMin : Nat) (reuse : Bool) (hwf : net.wfB = true) (ho : orderOKB net order = true)
+    (hf : strip = true → forksOKB net order = true) (hr : readsDrivenB tbl net order = true) (hpos : 0 < capsMin)
+    (R : MapSound.RW α C) (sem : OpRow → List α → α) (s1 s2 : List Nat)
+    (h1 : (simopsMap tbl net order strip capsIn capsMin reuse).schedOKB s1 = true)
+    (h2 : (simopsMap tbl net order strip capsIn capsMin reuse).schedOKB s2 = true)
+    (hfit : ∀ o ∈ (simopsMap tbl net order strip capsIn capsMin reuse).ops, ∀ args m,
+      R.rd ((simopsMap tbl net order strip capsIn capsMin reuse).loc o.out)
+        ((simopsMap tbl net order strip capsIn capsMin reuse).cap o.out)
+        (R.wr ((simopsMap tbl net order strip capsIn capsMin reuse).loc o.out)
+          ((simopsMap tbl net order strip capsIn capsMin reuse).cap o.out) (sem o args) m) = sem o args)
+    (m0 : Int → C) (env0 : Nat → α)
+    (h0 : ∀ x ∈ (simopsMap tbl net order strip capsIn capsMin reuse).tracked,
+      (∀ o ∈ (simopsMap tbl net order strip capsIn capsMin reuse).ops, o.out ≠ x) →
+        MapSound.rdS (simopsMap tbl net order strip capsIn capsMin reuse) R x m0 = env0 x) :
+    let p := simopsMap tbl net order strip capsIn capsMin reuse
+    ∀ j s, (j, s) ∈ p.ppoSrcs →
+      MapSound.rdS p R j (MapSound.memRun p R sem (MapSound.schedOps p s1) m0)
+        = MapSound.rdS p R j (MapSound.memRun p R sem (MapSound.schedOps p s2) m0) :=
+  memory_any_schedule _ (simopsMap_accepted tbl net order strip capsIn capsMin reuse hwf ho hf hr hpos) R sem s1 s2 h1 h2
+    hfit m0 env0 h0
+
+/-- non-vacuity: the model's record of `C08.demoNet` has the schedules of the example above -/
+example : (simopsMap Gen.kindPrefixes C08.demoNet C08.demoOrder false (fun _ => 1) 1 true).schedOKB [1, 0, 3, 2, 4, 5] = true := by
+  decide +kernel
 
 /-- the levelisation of `SimOps`: an op that writes a signal is placed in a strictly earlier level than every
     later op that reads it (no op reads a signal produced in its own or a later level) — every op list -/
